@@ -742,7 +742,9 @@ def run_value(case):
     # tree, and the result side when the result is a plain copy of such a tree
     plain_a = (not case.get("fmt") and not case.get("pre") and (case["kind"] != "free" or case["d"] == 1) and
                not any(case.get(k) for k in ("vals", "fshape", "active", "metrics", "unordered")) and "fdflt" not in case)
-    plain_b = plain_a and op in ("T.deepcopy", "F.deepcopy", "F.copy")
+    # (not for half-owned operands: their copy is an unowned wrapper / slice above owned fibers, a shape of tree the
+    #  C01 histories never build and the step model does not claim)
+    plain_b = plain_a and op in ("T.deepcopy", "F.deepcopy", "F.copy") and case["kind"] != "half"
     steps, invisible = follow_ups(rng, W, sides, roots_all, current, n_steps, case["dflt"], case.get("n", 4),
                                   (hint_a, None), (plain_a, plain_b))
     impl["steps"] = steps
